@@ -1541,6 +1541,11 @@ pub(super) fn judge(case: &Case, obs: &CaseObs) -> Verdict {
         } else {
             v.tag("poll.between");
         }
+        if p == 17 {
+            v.tag("poll.exponent-17");
+        } else if p > 17 {
+            v.tag("poll.exponent-above-17");
+        }
         if o.resets.len() != 1 {
             v.find(
                 "C10",
